@@ -5,7 +5,7 @@ from checks.c01 import depslib_trusted
 
 
 def run(ctx):
-    ctx.prove(["Props/%s.vo" % ctx.pid, "Run/eval_deps.vo"])
+    ctx.prove(["Props/%s.vo" % ctx.pid, "Run/eval_deps.vo"], extra_props=["Engine_bigstep"])   # + the small-step engine agrees with a big-step evaluator under every schedule (serial calls stop at the first failure: exactly the "needed" keys start, once)
     ctx.trusted_base += depslib_trusted()
     depslib.run_engine_check(ctx, ctx.pid, 400 if ctx.quick else 6000, serial_bias=(ctx.pid == "C13"))
     from checks.c01 import contention
